@@ -310,14 +310,52 @@ fn cli_part(_toml: &mut TomlBatch) -> Tally {
 		let lib = super::c13::library_run(w.path(), &inputs, None, F::Toml, b"s = \"stdin\"\n");
 		let good = match (&o.exit, lib.failed_at) {
 			(Exit::Code(0), None) => o.stdout == lib.bytes,
-			// the partial output of the failing input may still sit in the stdout buffer
-			(Exit::Code(1), Some(_)) => o.stdout.starts_with(&lib.complete) && lib.bytes.starts_with(&o.stdout),
+			// nothing, or exactly the one complete document (which may still sit in the stdout buffer when
+			// the input it belongs to fails afterwards); never a part of it
+			(Exit::Code(1), Some(_)) => o.stdout == lib.bytes || (lib.complete.is_empty() && o.stdout.is_empty()),
 			_ => false,
 		};
 		if !good {
 			t.bad("cli-toml-output-not-one-document", json!({"kind": "cli-toml", "argv": args}), format!("xt {args:?}: {} | one Translator gives failed_at={:?} bytes={}", o.brief(), lib.failed_at, show(&lib.bytes)));
 		}
 	}
+	// a document whose TOML rendering has every exact size around the buffer / pipe sizes (and just past
+	// multiples of 64 KiB), followed by a second document that TOML output must refuse: stdout holds
+	// nothing or exactly the first document
+	let mut sizes = crate::gen::size_ladder(false);
+	sizes.extend([65536 + 107, 65536 + 8000, 2 * 65536 + 7, 2 * 65536 + 4000]);
+	let jobs: Vec<(usize, u8)> = sizes.iter().flat_map(|&s| (0..3u8).map(move |k| (s, k))).collect();
+	let dir = w.path().to_path_buf();
+	let tl = crate::util::par_fold(&jobs, Tally::default, |t, idx, &(size, kind)| {
+		let z = "z".repeat(size - "p = \"\"\n".len());
+		let doc = format!("p = \"{z}\"\n").into_bytes();
+		assert!(doc.len() == size);
+		let (data, args): (Vec<u8>, Vec<String>) = match kind {
+			0 => (format!("{{\"p\":\"{z}\"}}\n{{\"b\":2}}\n").into_bytes(), vec!["-tt".into(), format!("big{idx}.json")]),
+			1 => (format!("{{\"p\":\"{z}\"}}\n{{\"b\":2}}\n").into_bytes(), vec!["-tt".into(), "-fj".into()]),
+			_ => (format!("p: {z}\n---\nb: 2\n").into_bytes(), vec!["-tt".into(), "-fy".into()]),
+		};
+		let argv: Vec<&str> = args.iter().map(String::as_str).collect();
+		let mut sp = Spawn::new(&dir, &argv);
+		if kind == 0 {
+			std::fs::write(dir.join(&args[1]), &data).unwrap();
+		} else {
+			sp.stdin = Stdin::Bytes(data);
+		}
+		sp.release = idx % 2 == 0;
+		let o = proc::run(&sp);
+		if kind == 0 {
+			let _ = std::fs::remove_file(dir.join(&args[1]));
+		}
+		t.evaluations += 1;
+		t.count("cli:sized-document-then-refused-document");
+		let supply = ["json file", "json stdin", "yaml stdin"][kind as usize];
+		if o.exit != Exit::Code(1) || !(o.stdout.is_empty() || o.stdout == doc) {
+			t.bad("cli-toml-output-not-one-document", json!({"kind": "cli-toml-sized", "size": size, "supply": supply}),
+				format!("a {size}-byte TOML rendering followed by a second document ({supply}): {} with {} bytes on stdout (want exit 1 and nothing or exactly the {size}-byte document)", o.exit, o.stdout.len()));
+		}
+	});
+	t.merge(Tally::merge_all(tl));
 	t
 }
 
@@ -426,7 +464,7 @@ pub fn run(ctx: &Ctx) -> CheckOutput {
 		tally.bad(class, case.clone(), format!("{desc}: TOML output {}: {detail}", show(out)));
 	}
 	let req = |k: &str| (k.to_string(), *tally.counters.get(k).unwrap_or(&0));
-	let required = vec![req("histories:len1"), req("histories:len2"), req("histories:len3"), req("single:accept-expected"), req("single:refusal-expected"), req("single:outside-common-model"), req("toml-outputs-read-by-tomllib"), req("cli:toml-target-input-lists")];
+	let required = vec![req("histories:len1"), req("histories:len2"), req("histories:len3"), req("single:accept-expected"), req("single:refusal-expected"), req("single:outside-common-model"), req("toml-outputs-read-by-tomllib"), req("cli:toml-target-input-lists"), req("cli:sized-document-then-refused-document")];
 	CheckOutput {
 		level: "model_checking",
 		tally,
